@@ -95,7 +95,7 @@ class MakeFilename(object):
         self._methods = methods
 
     def _set_context(self, context):
-        self._context = context
+        self._context = deepcopy(context)
 
     def __call__(self, value):
         """Add *output* keys to the *value*'s context.
